@@ -21,10 +21,12 @@ def programs(entry, n, tag, algo="sha256"):
         return "sync", [{"op": "write_sync_with_algo", "algo": algo, "cache": "<C>", "key": KEY, "data": data}]
     if entry == "write_hash_sync":
         return "sync", [{"op": "write_hash_sync_with_algo", "algo": algo, "cache": "<C>", "data": data}]
-    if entry in ("sw_declared", "sw_plain", "sw_declared_hash"):
+    if entry in ("sw_declared", "sw_plain", "sw_declared_hash", "sw_declared_short", "sw_declared_over"):
         opts = {"algorithm": algo}
         if entry != "sw_plain":
-            opts["size"] = n
+            # *_short / *_over: the writer misses its declared size (memory-mapped temp file has to be cut back / left);
+            # the commit is rejected, and at no kill point may a padded or spliced file sit under a content address
+            opts["size"] = n + 7 if entry.endswith("_short") else max(n - 2, 1) if entry.endswith("_over") else n
         req = {"op": "sw_open", "cache": "<C>", "opts": opts}
         if entry != "sw_declared_hash":
             req["key"] = KEY
@@ -38,13 +40,13 @@ def programs(entry, n, tag, algo="sha256"):
         if entry == "write":
             req["key"] = KEY
         return "async", [req]
-    if entry in ("aw_plain", "aw_declared_hash"):
+    if entry in ("aw_plain", "aw_declared_hash", "aw_declared_hash_short", "aw_declared_hash_over"):
         opts = {"algorithm": algo}
         req = {"op": "aw_open", "cache": "<C>", "opts": opts}
         if entry == "aw_plain":
             req["key"] = KEY
         else:
-            opts["size"] = n
+            opts["size"] = n + 7 if entry.endswith("_short") else max(n - 2, 1) if entry.endswith("_over") else n
         h = {"ref": 0}
         half = n // 2
         return "async", [req, {"op": "w_write_all", "h": h, "data": {"gen": [n, tag, 0, half]}},
@@ -71,6 +73,13 @@ def scenarios(tier):
                 for e in ASYNC_ENTRIES:
                     if quick and (init == "warm" or (e in ("write_hash",) and init != "cold")):
                         continue
+                    out.append({"entry": e, "flavour": fl, "n": n, "init": init})
+    for n in ((5, 300) if quick else (5, 300, 4097, ref.MIB - 9)):
+        for init in ("cold", "present"):
+            for e in ("sw_declared_short", "sw_declared_over"):
+                out.append({"entry": e, "flavour": "sync", "n": n, "init": init})
+            for fl in (("astd",) if quick else ("astd", "tok")):
+                for e in ("aw_declared_hash_short", "aw_declared_hash_over"):
                     out.append({"entry": e, "flavour": fl, "n": n, "init": init})
     if not quick:
         out.append({"entry": "write_sync", "flavour": "sync", "n": 4097, "init": "cold", "algo": "xxh3"})
@@ -299,9 +308,11 @@ def worker(ctx, job):
         rep = fsx.run(spec, ctx.dir)
         res["evals"] += 1
         out = fsx.replies(rep, 0)
-        if rep["status"] != "ok" or not out or "ok" not in out[-1]:
+        rejected = sc["entry"].endswith(("_short", "_over"))
+        clean = bool(out) and (("ok" in out[-1]) if not rejected else out[-1].get("err", {}).get("variant") == "SizeMismatch")
+        if rep["status"] != "ok" or not clean:
             V.violation(res, "content:%s/%s:%s:clean-run-%s" % (sc["entry"], sc["flavour"], size_class(sc["n"]), classify(out[-1]) if out else rep["status"]),
-                        "uninterrupted write under fsx did not succeed: %r %r" % (rep["status"], out[-1:] or rep.get("error")),
+                        "uninterrupted write under fsx did not end as expected: %r %r" % (rep["status"], out[-1:] or rep.get("error")),
                         {"engine": "fsx", "mode": "crash", "scenario": sc, "crash": None})
         snap = fsutil.snapshot(cache)
         content_check(ctx, res, snap, sc, "after the complete write", {"engine": "fsx", "mode": "crash", "scenario": sc, "crash": None})
